@@ -385,3 +385,45 @@ Print Assumptions cap_preemptive_leaf_only_refuted.
 Print Assumptions proportion_realcap_bound_refuted.
 Print Assumptions ex_grandparent_binds.
 Print Assumptions ex_accepted.
+
+(* ---------- audit W8 / W12: the literal enqueue clause is false; what law 110 means ---------- *)
+
+(* the property text says "minResources fit under the capability together with what the queue has
+   already allocated or admitted"; the plugins subtract the ELASTIC part of the allocation (what
+   jobs hold beyond their own minResources; everything, for a job without minResources).  A queue
+   of realCapability 4 whose 4 cpus are held by a job without minResources admits a PodGroup with
+   minResources 4: reproduced on the real capacity and proportion plugins (docs/notes/C03.md). *)
+Definition elastic_qs : qmap :=
+  list_to_map [(1%positive, mkQrec true (cpu_res 4) empty_res (cpu_res 4) (cpu_res 4) (Some (cpu_res 4)) [] 0)].
+
+Theorem enqueue_literal_refuted :
+  exists qs q m r c,
+    prop_enqueueable qs q (Some m) = Permit /\ cap_enqueueable false true qs q (Some m) = Permit /\
+    qs !! q = Some r /\ qr_realcap r = Some c /\
+    amt c DCpu < amt m DCpu + amt (qr_alloc r) DCpu + amt (qr_inqueue r) DCpu.
+Proof.
+  exists elastic_qs, 1%positive, (cpu_res 4),
+         (mkQrec true (cpu_res 4) empty_res (cpu_res 4) (cpu_res 4) (Some (cpu_res 4)) [] 0), (cpu_res 4).
+  vm_compute. repeat split; try reflexivity.
+Qed.
+
+(* law 110, as a Prop: a positive observed answer passes the law only if the queue is Open, a leaf
+   where hierarchy applies, and the bound holds for every queue of the chain against the limit the
+   plugin uses (realCapability; deserved for proportion) *)
+Theorem law_alloc_one_sound k qs reserved q req :
+  law_alloc_one k qs reserved q req true = true ->
+  exists r, qs !! q = Some r /\ qr_open r = true /\ leaf_ok k r = true /\
+    forall a, a ∈ chain_of k r q ->
+      exists ra c, qs !! a = Some ra /\ limit_of k ra = Some c /\
+        forall d, requested req d -> amt (qr_alloc ra) d + amt (reserved a) d + amt req d <= amt c d.
+Proof.
+  unfold law_alloc_one. cbn [negb orb]. destruct (qs !! q) as [r|]; [|discriminate].
+  rewrite !andb_true_iff, forallb_forall. intros [[Ho Hl] Hall].
+  exists r. split; [reflexivity|]. split; [exact Ho|]. split; [exact Hl|]. intros a Ha. apply elem_of_list_In in Ha.
+  specialize (Hall a Ha). destruct (qs !! a) as [ra|]; [|discriminate].
+  destruct (limit_of k ra) as [c|] eqn:El; [|discriminate].
+  exists ra, c. split; [reflexivity|]. split; [exact El|]. intros d Hd.
+  exact (proj1 (bound_okb_spec _ _ _) Hall d Hd).
+Qed.
+Print Assumptions enqueue_literal_refuted.
+Print Assumptions law_alloc_one_sound.
